@@ -2,7 +2,7 @@
 # usage: tools/take_seed.sh <prop> <n>   (sub-agent results in /tmp/seed3/<prop>/_out)
 # confirms the seeded change (suite green with it, demo fails with it, passes without), runs the
 # property's quick check against it and stores everything under seeded/<prop>-s<n>/
-p=$1; n=$2; wt=/tmp/seed3/$p; out=/verif/seeded/$p-s$n
+p=$1; n=$2; wt=${SEED_ROOT:-/tmp/seed3}/$p; out=/verif/seeded/$p-s$n
 pkg=$(sed -n 's/^pkgdir: *//p' $wt/_out/notes.md | head -1 | tr -d '` ')
 mkdir -p $out
 cp $wt/_out/mut1.diff $out/patch.diff; cp $wt/_out/demo1_test.go $out/demo_test.go.txt; cp $wt/_out/notes.md $out/notes.md
